@@ -313,23 +313,21 @@ func (so *Sorts) zero(t types.Type) string {
 	return "0"
 }
 
-// prelude: fixed declarations of the memory model.
-func (so *Sorts) prelude() string {
+// prelude: fixed declarations of the memory model. Quantified axiom groups
+// are included only when the query body mentions the functions they are
+// about, so that quantifier-free obligations stay quantifier-free (and failing
+// ones come back "sat" with a model).
+func (so *Sorts) prelude(body string) string {
 	var b strings.Builder
 	b.WriteString(`(declare-sort hv_Str 0)
 (declare-fun hv_strlen (hv_Str) Int)
 (declare-fun hv_strat (hv_Str Int) Int)
 (declare-fun hv_strcat (hv_Str hv_Str) hv_Str)
 (declare-fun hv_emptystr () hv_Str)
-(assert (= (hv_strlen hv_emptystr) 0))
-(assert (forall ((s hv_Str)) (! (>= (hv_strlen s) 0) :pattern ((hv_strlen s)))))
-(assert (forall ((s hv_Str)) (! (=> (= (hv_strlen s) 0) (= s hv_emptystr)) :pattern ((hv_strlen s)))))
-(assert (forall ((a hv_Str) (b hv_Str)) (! (= (hv_strlen (hv_strcat a b)) (+ (hv_strlen a) (hv_strlen b))) :pattern ((hv_strcat a b)))))
 (declare-datatypes ((hv_Slice 0)) (((hv_mkslice (hv_org Int) (hv_len Int) (hv_cap Int)))))
 (define-fun hv_nilslice () hv_Slice (hv_mkslice 0 0 0))
 (declare-datatypes ((hv_Iface 0)) (((hv_mkiface (hv_tag Int) (hv_val Int)))))
 (define-fun hv_niliface () hv_Iface (hv_mkiface 0 0))
-; address structure: sub-objects and slice/array elements
 (declare-fun hv_sub (Int Int) Int)
 (declare-fun hv_sub_parent (Int) Int)
 (declare-fun hv_sub_tag (Int) Int)
@@ -338,20 +336,11 @@ func (so *Sorts) prelude() string {
 (declare-fun hv_elem_idx (Int) Int)
 (declare-fun hv_kind (Int) Int)
 (declare-fun hv_base (Int) Int)
-(assert (forall ((x Int) (k Int)) (! (and (= (hv_sub_parent (hv_sub x k)) x) (= (hv_sub_tag (hv_sub x k)) k) (= (hv_kind (hv_sub x k)) 1) (= (hv_base (hv_sub x k)) (hv_base x)) (not (= (hv_sub x k) 0))) :pattern ((hv_sub x k)))))
-; slice origins: hv_elem(o,i) is the address of element i counted from origin o;
-; hv_adv(o,n) is the origin n elements further (re-slicing); hv_root/hv_offs give
-; the underlying array and the origin's offset in it.
 (declare-fun hv_adv (Int Int) Int)
 (declare-fun hv_root (Int) Int)
 (declare-fun hv_offs (Int) Int)
-(assert (forall ((o Int) (i Int)) (! (and (= (hv_elem_arr (hv_elem o i)) (hv_root o)) (= (hv_elem_idx (hv_elem o i)) (+ (hv_offs o) i)) (= (hv_kind (hv_elem o i)) 2) (= (hv_base (hv_elem o i)) (hv_base o)) (not (= (hv_elem o i) 0))) :pattern ((hv_elem o i)))))
-(assert (forall ((o Int) (n Int) (i Int)) (! (= (hv_elem (hv_adv o n) i) (hv_elem o (+ n i))) :pattern ((hv_elem (hv_adv o n) i)))))
-(assert (forall ((o Int) (n Int)) (! (and (= (hv_root (hv_adv o n)) (hv_root o)) (= (hv_offs (hv_adv o n)) (+ (hv_offs o) n)) (= (hv_base (hv_adv o n)) (hv_base o)) (=> (= n 0) (= (hv_adv o n) o))) :pattern ((hv_adv o n)))))
-(assert (forall ((o Int) (a Int) (b Int)) (! (= (hv_adv (hv_adv o a) b) (hv_adv o (+ a b))) :pattern ((hv_adv (hv_adv o a) b)))))
 (assert (= (hv_kind 0) 0))
 (assert (= (hv_base 0) 0))
-; Go integer division / remainder (truncated)
 (define-fun hv_div ((x Int) (y Int)) Int (ite (>= x 0) (ite (> y 0) (div x y) (- (div x (- y)))) (ite (> y 0) (- (div (- x) y)) (div (- x) (- y)))))
 (define-fun hv_rem ((x Int) (y Int)) Int (- x (* y (hv_div x y))))
 (declare-fun hv_bitand (Int Int) Int)
@@ -362,15 +351,55 @@ func (so *Sorts) prelude() string {
 (declare-fun hv_andnot (Int Int) Int)
 (declare-fun hv_implements (Int Int) Bool)
 `)
+	if strings.Contains(body, "hv_strlen") || strings.Contains(body, "hv_emptystr") || strings.Contains(body, "hv_strcat") {
+		b.WriteString(`(assert (= (hv_strlen hv_emptystr) 0))
+(assert (forall ((s hv_Str)) (! (>= (hv_strlen s) 0) :pattern ((hv_strlen s)))))
+(assert (forall ((s hv_Str)) (! (=> (= (hv_strlen s) 0) (= s hv_emptystr)) :pattern ((hv_strlen s)))))
+(assert (forall ((a hv_Str) (b hv_Str)) (! (= (hv_strlen (hv_strcat a b)) (+ (hv_strlen a) (hv_strlen b))) :pattern ((hv_strcat a b)))))
+`)
+	}
+	if strings.Contains(body, "hv_sub ") {
+		b.WriteString(`(assert (forall ((x Int) (k Int)) (! (and (= (hv_sub_parent (hv_sub x k)) x) (= (hv_sub_tag (hv_sub x k)) k) (= (hv_kind (hv_sub x k)) 1) (= (hv_base (hv_sub x k)) (hv_base x)) (not (= (hv_sub x k) 0))) :pattern ((hv_sub x k)))))
+`)
+	}
+	if strings.Contains(body, "hv_elem ") || strings.Contains(body, "hv_adv ") {
+		b.WriteString(`; slice origins: hv_elem(o,i) is the address of element i counted from origin o;
+; hv_adv(o,n) is the origin n elements further (re-slicing); hv_root/hv_offs give
+; the underlying array and the origin's offset in it.
+(assert (forall ((o Int) (i Int)) (! (and (= (hv_elem_arr (hv_elem o i)) (hv_root o)) (= (hv_elem_idx (hv_elem o i)) (+ (hv_offs o) i)) (= (hv_kind (hv_elem o i)) 2) (= (hv_base (hv_elem o i)) (hv_base o)) (not (= (hv_elem o i) 0))) :pattern ((hv_elem o i)))))
+(assert (forall ((o Int) (n Int) (i Int)) (! (= (hv_elem (hv_adv o n) i) (hv_elem o (+ n i))) :pattern ((hv_elem (hv_adv o n) i)))))
+(assert (forall ((o Int) (n Int)) (! (and (= (hv_root (hv_adv o n)) (hv_root o)) (= (hv_offs (hv_adv o n)) (+ (hv_offs o) n)) (= (hv_base (hv_adv o n)) (hv_base o)) (=> (= n 0) (= (hv_adv o n) o))) :pattern ((hv_adv o n)))))
+(assert (forall ((o Int) (a Int) (b Int)) (! (= (hv_adv (hv_adv o a) b) (hv_adv o (+ a b))) :pattern ((hv_adv (hv_adv o a) b)))))
+`)
+	}
 	for _, d := range so.structDecl {
 		b.WriteString(d)
 		b.WriteByte('\n')
 	}
 	for _, d := range so.extraDecls {
+		if strings.HasPrefix(d, "(assert") {
+			// axioms about helper functions: only when the function is mentioned
+			if fn := axiomFunc(d); fn != "" && !strings.Contains(body, fn) {
+				continue
+			}
+		}
 		b.WriteString(d)
 		b.WriteByte('\n')
 	}
 	return b.String()
+}
+
+// axiomFunc finds the helper function an extra axiom is about (its pattern head).
+func axiomFunc(d string) string {
+	i := strings.Index(d, ":pattern ((")
+	if i < 0 {
+		return ""
+	}
+	rest := d[i+len(":pattern (("):]
+	if j := strings.IndexAny(rest, " )"); j > 0 {
+		return rest[:j]
+	}
+	return ""
 }
 
 func and(ts ...string) string {
